@@ -94,3 +94,15 @@ Definition toy_history : list hstep :=
     HCall (OMatchString 0 [1; 1; 1; 1; 1; 1; 1]) [] ].
 
 Definition toy_fuel : nat := 20.
+
+(* two goroutines on the same Regexp, strictly alternating, each Get taking the most recently pooled object *)
+Definition toy_opss : list (list op) :=
+  [ [OMatchString 0 [9; 1; 1]; OReplace 0 [1; 1] [50] (-1) (-1); OFindAllStringIndex 0 [1; 2; 3] (-1)];
+    [OMatchString 0 [1; 2]; OFindStringMatch 0 [2; 2; 2]; OReplace 0 [1; 1] [50] (-1) (-1); OSplit 0 [1; 2] (-1)];
+    [OMatchRunes 1 [9; 1]; OMatchRunes 1 [1; 99]; OMatchRunes 1 [3; 3]] ].
+Fixpoint toy_sched (n : nat) : list (nat * pick) :=
+  match n with
+  | O => []
+  | S n' => (O, Some O) :: (1%nat, Some O) :: (2%nat, None) :: (1%nat, Some 1%nat) :: toy_sched n'
+  end.
+Definition toy_c0 : config := {| c_g := toy_g0; c_threads := map spawn toy_opss; c_fault := false |}.
